@@ -18,6 +18,7 @@ import sys
 import textwrap
 import types
 from enum import Enum
+from itertools import chain
 from inspect import signature, Signature
 from pathlib import Path
 from typing import (
@@ -162,6 +163,8 @@ class Documentable:
 
     def setup(self) -> None:
         self.contents: Dict[str, Documentable] = {}
+        self._shadowed_members: List[Documentable] = []
+        """Members that were overridden by a later definition of the same name, see L{System.handleDuplicate}."""
         self._linker: Optional['linker.DocstringLinker'] = None
 
     def setDocstring(self, node: astutils.Str) -> None:
@@ -282,12 +285,12 @@ class Documentable:
 
     def _handle_reparenting_pre(self) -> None:
         del self.system.allobjects[self.fullName()]
-        for o in self.contents.values():
+        for o in chain(self.contents.values(), self._shadowed_members):
             o._handle_reparenting_pre()
 
     def _handle_reparenting_post(self) -> None:
         self.system.allobjects[self.fullName()] = self
-        for o in self.contents.values():
+        for o in chain(self.contents.values(), self._shadowed_members):
             o._handle_reparenting_post()
     
     def _localNameToFullName(self, name: str) -> str:
@@ -1121,6 +1124,10 @@ class System:
                 yield o
 
     def privacyClass(self, ob: Documentable) -> PrivacyClass:
+        if ob.parent is not None and ob in ob.parent._shadowed_members:
+            # A shadowed definition is not a member of its parent anymore, so it
+            # is not rendered: hide it, such that nothing lists it or links to it.
+            return PrivacyClass.HIDDEN
         ob_fullName = ob.fullName()
         cached_privacy = self._privacyClassCache.get(ob_fullName)
         if cached_privacy is not None:
@@ -1376,7 +1383,7 @@ class System:
     
     def _remove(self, o: Documentable) -> None:
         del self.allobjects[o.fullName()]
-        oc = list(o.contents.values())
+        oc = list(o.contents.values()) + o._shadowed_members
         for c in oc:
             self._remove(c)
 
@@ -1405,13 +1412,13 @@ class System:
         prev.name = obj.name + ' ' + str(i)
         def readd(o: Documentable) -> None:
             self.allobjects[o.fullName()] = o
-            for c in o.contents.values():
+            for c in chain(o.contents.values(), o._shadowed_members):
                 readd(c)
         readd(prev)
         self.allobjects[fullName] = obj
-        # The shadowed object is not a member of its parent anymore, so it
-        # is not rendered: hide it, such that nothing lists it or links to it.
-        self._privacyClassCache[prev.fullName()] = PrivacyClass.HIDDEN
+        if prev.parent is not None:
+            # Keep track of the shadowed object: it follows its parent when it's moved.
+            prev.parent._shadowed_members.append(prev)
 
 
     def getProcessedModule(self, modname: str) -> Optional[_ModuleT]:
